@@ -197,6 +197,10 @@ class GopherEntry:
         for extension, blockname in list(eaexts.items()):
             if blockname in self.ea:
                 continue
+            if not vfs.isfile(selector + extension):
+                # Only a regular file can be a side-car: opening a FIFO of
+                # that name would block for ever, a directory cannot be read.
+                continue
             try:
                 with vfs.open(
                     selector + extension, "r", errors="surrogateescape"
